@@ -54,7 +54,7 @@ RULE = ("one evaluation = one simulated file-system world with one logical "
         "two different load paths succeeded and at least one judged probe "
         "instant (paths), or at least one fault fired (faults); distinct = "
         "distinct SHA-1 of the full event history")
-EXPECTED_PROBES = ["load.gettz_name", "load.gettz_second", "load.gettz_space",
+EXPECTED_PROBES = ["load.sibling", "load.gettz_name", "load.gettz_second", "load.gettz_space",
                    "load.gettz_colon", "load.gettz_abs", "load.tzfile_path",
                    "load.tzfile_stream", "load.archive", "load.archive_link",
                    "load.bundle", "load.pickle", "shape.same_offset",
@@ -68,10 +68,15 @@ CLASSES = {
     "system": dict(quick=700, thorough=1400, timeout=120),
     "paths":  dict(quick=2500, thorough=60000, timeout=60),
     "faults": dict(quick=2500, thorough=60000, timeout=60),
+    # one zone object shared by 2-3 threads that convert instants
+    # concurrently: "behave identically" must not depend on the schedule
+    "threads": dict(quick=1200, thorough=30000, timeout=60),
 }
 
 
 def TARGET_FILES(cls):
+    if cls == "threads":
+        return ["tz/tz.py", "tz/_common.py"]
     return ["tz/tz.py", "zoneinfo/__init__.py"]
 
 
@@ -263,7 +268,7 @@ def gen_zone(rng):
 LOADS = ["gettz_name", "gettz_second", "gettz_space", "gettz_colon",
          "gettz_abs", "tzfile_path", "tzfile_stream", "tzfile_stream_noname",
          "tzfile_stream_chunked", "archive", "archive_link", "archive_hardlink",
-         "bundle", "gettz_bundle"]
+         "bundle", "gettz_bundle", "sibling", "sibling"]
 
 
 def gen_loads(rng, n):
@@ -282,6 +287,25 @@ def gen_loads(rng, n):
 
 
 def generate(cls, rng):
+    if cls == "threads":
+        zone = dict(kind="system", pick=rng.getrandbits(30)) \
+            if rng.random() < 0.3 else gen_zone(rng)
+        nthreads = rng.choice([2, 2, 3])
+        threads = [[["obs", rng.randrange(0, 400)]
+                    for _ in range(rng.randrange(2, 8))]
+                   for _ in range(nthreads)]
+        kind = rng.choice(["random", "random", "pb", "pct"])
+        if kind == "random":
+            strat = dict(kind="random", p=rng.choice([0.02, 0.1, 0.3, 1.0]))
+        elif kind == "pb":
+            strat = dict(kind="pb", k=rng.choice([1, 2, 3]),
+                         horizon=rng.choice([100, 400, 1500]))
+        else:
+            strat = dict(kind="pct", d=rng.choice([2, 3, 4]),
+                         horizon=rng.choice([100, 400, 1500]))
+        return dict(zone=zone, threads=threads,
+                    probe_seed=rng.getrandbits(30),
+                    sched=dict(strategy=strat, seed=rng.getrandbits(32)))
     if cls == "system":
         return dict(zone=dict(kind="system", pick=None),
                     ops=[[rng.choice(LOADS[:6])], ["tzfile_stream"],
@@ -293,6 +317,28 @@ def generate(cls, rng):
         zone = gen_zone(rng)
     sc = dict(zone=zone, ops=gen_loads(rng, rng.randrange(2, 9)),
               probe_seed=rng.getrandbits(30))
+    if cls == "faults" and rng.random() < 0.2:
+        # focused: a stream that delivers every field whole except the
+        # abbreviation table, and data without indicator bytes after it
+        z = gen_zone(rng)
+        while len(z["types"]) < 5 and len(z["types"]) >= 1:
+            z["types"].append([_off(rng), rng.random() < 0.3,
+                               rng.choice(["LONGABBR", "ABCDEFGH", "+103045",
+                                           "-093015", "XYZWVUT"]) +
+                               str(len(z["types"]))[:0]])
+        names = ["LONGABBR", "ABCDEFGH", "+103045", "-093015", "XYZWVUT",
+                 "QRSTUVW", "MNOPQRS", "HIJKLMN"]
+        z["types"] = [[t[0], t[1], names[i % len(names)]]
+                      for i, t in enumerate(z["types"])]
+        z["trans"] = z["trans"][:5]
+        z["idx"] = [i % len(z["types"]) for i in range(len(z["trans"]))]
+        z["isstd"] = []
+        z["isgmt"] = []
+        z["leaps"] = []
+        sc["zone"] = z
+        sc["ops"] = [[rng.choice(["tzfile_stream", "tzfile_stream_noname"])]]
+        sc["faults"] = [dict(kind="chunked", m="fit", where="stream")]
+        return sc
     if cls == "faults":
         faults = []
         for _ in range(rng.choice([1, 1, 2])):
@@ -469,6 +515,11 @@ class Loader(object):
         world.bundle = ZW.make_archive({"Bundle/Zone": data})
         self.zif = None
         self.stream_fault = None
+        ref = tzif.Ref(data)
+        sib_types = [(off + (0 if isdst else 3600), isdst, abbr)
+                     for (off, isdst, abbr) in ref.types]
+        self.sibling = tzif.make_tzif(ref.trans, ref.idx, sib_types,
+                                      ref.isstd, ref.isgmt)
 
     def zoneinfofile(self):
         if self.zif is None:
@@ -510,6 +561,13 @@ class Loader(object):
             return self.zoneinfofile().get("Area/Link")
         if k == "archive_hardlink":
             return self.zoneinfofile().get("Area/Hard")
+        if k == "sibling":
+            # a DIFFERENT zone that shares type entries with this one (its
+            # standard types are one hour further east, its daylight types
+            # are the same): loading it must not disturb zones already loaded
+            self.ctx.probe("load.sibling")
+            tz.tzfile(io.BytesIO(self.sibling))
+            return "sibling"
         if k == "bundle":
             return self.zi.get_zonefile_instance().get("Bundle/Zone")
         if k == "gettz_bundle":
@@ -579,6 +637,10 @@ def execute(cls, scenario, ctx):
             armed.append((where, f))
         ctx.event("faults", armed)
     loaded = []          # (op, zone or None)
+    first_obs = [None]   # answers of the first loaded zone, taken at once
+    if cls == "threads":
+        return execute_threads(scenario, ctx, world, L, data, ref, instants,
+                               label)
     K.set_budget(6000000)
     try:
         for op in scenario["ops"]:
@@ -630,6 +692,10 @@ def execute(cls, scenario, ctx):
                 _handles(ctx, world, op)
                 continue
             _handles(ctx, world, op)
+            if isinstance(z, str) and z == "sibling":
+                ctx.event("load", op, "sibling")
+                loaded.append((op, None))
+                continue
             if z is None:
                 ctx.event("load", op, None)
                 if not fault_class:
@@ -638,12 +704,32 @@ def execute(cls, scenario, ctx):
                 continue
             ctx.event("load", op, "ok")
             loaded.append((op, z))
+            if not fault_class and first_obs[0] is None:
+                with K.mute():
+                    try:
+                        first_obs[0] = (z, [ZW.observe(z, ts)
+                                            for ts in instants])
+                    except Exception:
+                        first_obs[0] = (z, None)
             if fault_class:
                 judge_fault_result(ctx, op, z, ref, instants, label, armed,
                                    data)
         zones = [(op, z) for op, z in loaded if z is not None]
         if not fault_class:
             judge(ctx, zones, ref, instants, label)
+            # history independence: whatever was loaded in between, the
+            # first zone still answers what it answered when it was loaded
+            if first_obs[0] is not None and first_obs[0][1] is not None:
+                z0, obs0 = first_obs[0]
+                with K.mute():
+                    for ts, was in zip(instants, obs0):
+                        now = ZW.observe(z0, ts)
+                        ctx.checks += 1
+                        if now != was:
+                            ctx.violation(
+                                "C06.answers_changed_after_other_loads",
+                                dict(zone=label, ts=ts, first=was, now=now,
+                                     loads=[o[0] for o, _z in loaded]))
             # (3) archive links are the target's own object
             if L.zif is not None:
                 a = L.zif.get("Area/Zone")
@@ -660,6 +746,48 @@ def execute(cls, scenario, ctx):
         ctx.violation("liveness.budget", dict(msg=str(e), zone=label))
     finally:
         K.set_budget(None)
+
+
+def execute_threads(scenario, ctx, world, L, data, ref, instants, label):
+    from dsim.kernel import Scheduler
+    from dateutil import tz
+    zone = tz.tzfile(io.BytesIO(data))
+    st = scenario["sched"]
+    sched = Scheduler(st["strategy"], st.get("seed", 0), tape=st.get("tape"),
+                      max_steps=400000)
+    got = {}
+    for ti, prog in enumerate(scenario["threads"]):
+        def body(ti=ti, prog=prog):
+            for j, op in enumerate(prog):
+                ts = instants[op[1] % len(instants)]
+                try:
+                    g = ZW.observe(zone, ts)
+                except (Deadlock, BudgetExceeded):
+                    raise
+                except Exception as e:
+                    from dsim.kernel import SimBaseException
+                    if isinstance(e, SimBaseException):
+                        raise
+                    g = ("raised", type(e).__name__, str(e)[:80])
+                with K.mute():
+                    got[(ti, j)] = (ts, g)
+                    ctx.event("T%d" % ti, ts, g)
+        sched.spawn(body, "T%d" % ti)
+    try:
+        sched.run()
+    finally:
+        ctx.sched_summary = sched.summary()
+    ctx.fault("preemption", sched.preemptions)
+    fresh = tz.tzfile(io.BytesIO(data))
+    for (ti, j), (ts, g) in sorted(got.items()):
+        want = ZW.observe(fresh, ts)
+        ctx.checks += 1
+        if tuple(g) != tuple(want):
+            ctx.violation("C06.thread_answer_differs",
+                          dict(zone=label, ts=ts, concurrent=list(g),
+                               sequential=list(want), task="T%d" % ti))
+    if sched.switches:
+        ctx.nontrivial = True
 
 
 def _handles(ctx, world, op):
